@@ -193,6 +193,14 @@ def check_planar(case, ctx):
             v = linalg.is_left(a, b, c)
             e = (b[0] - a[0]) * (c[1] - a[1]) - (c[0] - a[0]) * (b[1] - a[1])
             ctx.check((v > 0) == (e > 0) and (v < 0) == (e < 0), "is_left", "is_left(%r, %r, %r) = %r, exact integer orientation %r" % (a, b, c, v, e))
+        # nearly collinear triples of large integer points: (m, m+1) and (m+1, m+2) span a parallelogram of area exactly 1
+        for (ox, oy), (jx, jy) in zip(pts[:4], case["jitter"]):
+            m_ = K + 5 * jx + jy
+            a, b, c = [ox, oy], [ox + m_, oy + m_ + 1], [ox + m_ + 1, oy + m_ + 2]
+            for t_ in ((a, b, c), (a, c, b)):
+                v = linalg.is_left(*t_)
+                e = (t_[1][0] - t_[0][0]) * (t_[2][1] - t_[0][1]) - (t_[2][0] - t_[0][0]) * (t_[1][1] - t_[0][1])
+                ctx.check((v > 0) == (e > 0) and (v < 0) == (e < 0), "is_left", "is_left(%r, %r, %r) = %r, exact integer orientation %r" % (t_[0], t_[1], t_[2], v, e))
     # convex hull
     hull = linalg.convex_hull([list(p) for p in pts])
     exact = ref.convex_hull_ccw(pts)
@@ -329,6 +337,11 @@ def _lookup_cases(draw, tier):
 def check_lookup(case, ctx):
     d = case["defn"]
     obj = build.make(d)
+    if len(d["P"]) % 2:
+        # a moved copy of the shape exists (and was looked at) next to it; the lookup still answers for the shape itself
+        mv_ = operations.translate(obj, [4.0, -2.0, 1.0][:d["dim"]])
+        _ = [list(q) for q in mv_.ctrlpts]
+        ctx.label("moved-copy-next-to-the-shape")
     R = build.exact_from(d, obj)
     pdim = len(d["degree"])
     P = d["P"]
